@@ -6,48 +6,66 @@ From MV Require Import C18.Model C18.Proofs C18.Instances.
 (* the recorded known finding: muggle_socket_evloop_add_ctx returns void *)
 Definition in_known_class_void_add_ctx (id : nat) : bool := Nat.eqb id 44.
 
-Definition repaired_ok (p : nat * scn) : bool :=
-  (100 <=? fst p) || in_known_class_void_add_ctx (fst p) || wf_scn (snd p).
-Definition orig_refuted_b (p : nat * scn) : bool :=
-  (fst p <? 100) || existsb (violates (snd p)) (seq 0 16).
+(* generic sweeps over a table, for an abstract per-scenario test (kept abstract so that
+   no conversion ever unfolds the checker on a variable) *)
+Section Sweep.
+  Variable W : scn -> bool.
+  Variable V : scn -> nat -> bool.
+  Definition repaired_ok (p : nat * scn) : bool :=
+    (100 <=? fst p) || in_known_class_void_add_ctx (fst p) || W (snd p).
+  Definition orig_refuted_b (p : nat * scn) : bool :=
+    (fst p <? 100) || existsb (V (snd p)) (seq 0 16).
 
-Lemma table_repaired_ok : forallb repaired_ok inst_table = true.
+  Lemma lookup_in id : forall t sc, lookup id t = Some sc -> In (id, sc) t.
+  Proof.
+    induction t as [|[k s] t IH]; cbn [lookup]; intros sc H; [discriminate|].
+    destruct (Nat.eqb k id) eqn:E.
+    - apply Nat.eqb_eq in E. inversion H; subst. left. reflexivity.
+    - right. apply IH. exact H.
+  Qed.
+
+  Lemma sweep_repaired t : forallb repaired_ok t = true -> forall id sc,
+    lookup id t = Some sc -> id < 100 -> in_known_class_void_add_ctx id = false -> W sc = true.
+  Proof.
+    intros T id sc H Hlt Hk. apply lookup_in in H.
+    rewrite forallb_forall in T. apply T in H.
+    unfold repaired_ok in H. cbn [fst snd] in H. rewrite Hk in H.
+    assert (E : (100 <=? id) = false) by (apply Nat.leb_gt; exact Hlt).
+    rewrite E in H. exact H.
+  Qed.
+
+  Lemma sweep_orig t : forallb orig_refuted_b t = true -> forall id sc,
+    lookup id t = Some sc -> 100 <= id -> exists k, V sc k = true.
+  Proof.
+    intros T id sc H Hge. apply lookup_in in H.
+    rewrite forallb_forall in T. apply T in H.
+    unfold orig_refuted_b in H. cbn [fst snd] in H.
+    assert (E : (id <? 100) = false) by (apply Nat.ltb_ge; exact Hge).
+    rewrite E in H. cbn [orb] in H. apply existsb_exists in H. destruct H as [k [_ Hv]].
+    exists k. exact Hv.
+  Qed.
+End Sweep.
+
+Lemma table_repaired_ok : forallb (repaired_ok wf_scn) inst_table = true.
 Proof. vm_compute. reflexivity. Qed.
 
-Lemma table_orig_refuted : forallb orig_refuted_b inst_table = true.
+Lemma table_orig_refuted : forallb (orig_refuted_b violates) inst_table = true.
 Proof. vm_compute. reflexivity. Qed.
-
-Lemma lookup_in id : forall t sc, lookup id t = Some sc -> In (id, sc) t.
-Proof.
-  induction t as [|[k s] t IH]; cbn; intros sc H; [discriminate|].
-  destruct (Nat.eqb k id) eqn:E.
-  - apply Nat.eqb_eq in E. inversion H; subst. left. reflexivity.
-  - right. apply IH. exact H.
-Qed.
 
 Lemma instances_wf id sc :
   inst_by_id id = Some sc -> id < 100 -> in_known_class_void_add_ctx id = false -> wf_scn sc = true.
-Proof.
-  intros H Hlt Hk. apply lookup_in in H.
-  pose proof table_repaired_ok as T. rewrite forallb_forall in T. apply T in H.
-  unfold repaired_ok in H. cbn [fst snd] in H. rewrite Hk in H.
-  assert (E : (100 <=? id) = false) by (apply Nat.leb_gt; exact Hlt).
-  rewrite E in H. exact H.
-Qed.
+Proof. exact (sweep_repaired wf_scn inst_table table_repaired_ok id sc). Qed.
 
 (* P_partial of the known-finding pattern *)
 Lemma instances_hold id sc f :
   inst_by_id id = Some sc -> id < 100 -> in_known_class_void_add_ctx id = false -> holds sc f.
-Proof. intros H1 H2 H3. apply wf_sound. eapply instances_wf; eassumption. Qed.
+Proof. intros H1 H2 H3. apply wf_sound. exact (instances_wf id sc H1 H2 H3). Qed.
 
 Lemma orig_instances_refuted id sc :
   inst_by_id id = Some sc -> 100 <= id -> exists k, ~ holds sc (single k).
 Proof.
-  intros H Hge. apply lookup_in in H.
-  pose proof table_orig_refuted as T. rewrite forallb_forall in T. apply T in H.
-  unfold orig_refuted_b in H. cbn [fst snd] in H.
-  assert (E : (id <? 100) = false) by (apply Nat.ltb_ge; exact Hge).
-  rewrite E in H. cbn in H. apply existsb_exists in H. destruct H as [k [_ V]].
+  intros H Hge.
+  destruct (sweep_orig violates inst_table table_orig_refuted id sc H Hge) as [k V].
   exists k. apply violates_not_holds. exact V.
 Qed.
 
